@@ -208,6 +208,8 @@ func runC03(w *World, r *Report) {
 	if ak, ik, ok := elementKinds(w); ok {
 		runWirelen(w, r, ak, ik)
 	}
+	r.Rule("errnoeffect", "a builder or setter that reports an error has not changed the value (a refused setting is not encoded)", 4)
+	errNoEffectRule(w, r, "errnoeffect", func(fi *FuncInfo) bool { return fi.Pkg.Types.Name() == "openflow13" })
 	r.Rule("ctorvalue", "a constructor whose payload is a computed function of its argument stores exactly the specified function on every path (vlan_vid: id | OFPVID_PRESENT)", 1)
 	ctorValueRule(w, r)
 	r.Rule("fresh", "a match-field header looked up by name is an object of its own", 1)
